@@ -210,3 +210,10 @@ Proof. eexists. split; [vm_compute; reflexivity|]. split; reflexivity. Qed.
 Lemma bucket_add_inplace_same_run_ok :
   exists s', bucket_add_inplace (creator_copy (0, 0)) (mkS bucket_demo_heap [true] []) = (Exn, s') /\ regs (hp s') rCount = 1.
 Proof. eexists. split; [vm_compute; reflexivity|]. reflexivity. Qed.
+
+(* BucketOpenN1::AddCrt (details/HashBucketOpenN1.h:122-135, also BucketOpen8) and BucketOpen2N2::AddCrt
+   (details/HashBucketOpen2N2.h:144-165) have the same shape: the items live inline in the bucket, the item creator runs first, the
+   short hash of the slot and the count/state byte are written only afterwards.  (For OpenN1 with maxCount - 1 items the state byte
+   IS the last short hash: writing it early makes the bucket report itself full.)  rCount = the count derived from that metadata. *)
+Definition open_bucket_add := bucket_add_inplace.
+Definition open_bucket_add_premature := bucket_add_inplace_premature.
